@@ -60,10 +60,12 @@ Section FLa.
   Proof. intros n [v|k] [pv|kv] H; simpl in *; try contradiction; reflexivity. Qed.
 
   (* ---------- environments ---------- *)
+  (* what an environment may bind at a type of kind c: a value of that kind, or a continuation *)
+  Definition vok (c : bool) (b : fbv) : Prop := match b with FbP v => vkind c v | FbK _ => True end.
   Definition erel (n : nat) (G : list cbinding) (S : cident -> Prop) (e : fenv) (ce : cenv) : Prop :=
     forall bb, gl G (cbvar bb) = Some bb -> S (cbvar bb) ->
       exists x b b', cbvar bb = new_id x /\ flookup e x = Some b /\ clookup ce (new_id x) = Some b' /\
-                     brel p cp n b b' /\ dbv b /\ fkind b = cbchi bb.
+                     brel p cp n b b' /\ vok (is_codata cp (cbty bb)) b /\ fkind b = cbchi bb.
 
   Lemma erel_weaken : forall n n' G (S S' : cident -> Prop) e ce,
     erel n G S e ce -> (forall x, S' x -> S x) -> (n' <= n)%nat -> erel n' G S' e ce.
@@ -81,7 +83,7 @@ Section FLa.
   Lemma erel_var : forall n G (S : cident -> Prop) e ce v ty,
     erel n G S e ce -> gl G (new_id v) = Some (mkcb (new_id v) CPrd ty) -> S (new_id v) ->
     exists val pv, flookup e v = Some (FbP val) /\ clookup ce (new_id v) = Some (BP pv) /\
-                   vrel p cp n val pv /\ dval val.
+                   vrel p cp n val pv /\ vkind (is_codata cp ty) val.
   Proof.
     intros n G S e ce v ty H Hg Hs. destruct (H (mkcb (new_id v) CPrd ty) Hg Hs) as [x [b [b' [E1 [E2 [E3 [E4 [E5 E6]]]]]]]].
     simpl in E1. apply new_id_inj in E1. subst x. simpl in E6.
@@ -99,7 +101,7 @@ Section FLa.
   Qed.
   (* one more source binder *)
   Lemma erel_bind1 : forall n G (S S' : cident -> Prop) e ce v chi ty b b',
-    erel n G S e ce -> brel p cp n b b' -> dbv b -> fkind b = chi ->
+    erel n G S e ce -> brel p cp n b b' -> vok (is_codata cp ty) b -> fkind b = chi ->
     (forall x, S' x -> x <> new_id v -> S x) ->
     erel n (mkcb (new_id v) chi ty :: G) S' ((v, b) :: e) ((new_id v, b') :: ce).
   Proof.
@@ -128,7 +130,8 @@ Section FLa.
   Qed.
   (* a whole context (clause parameters, definition parameters) *)
   Lemma erel_binds : forall n G ctx (S' P : cident -> Prop) vals vals' e ce e1,
-    Forall2 (brel p cp n) vals vals' -> Forall dbv vals ->
+    Forall2 (brel p cp n) vals vals' ->
+    Forall2 (fun v b => vok (is_codata cp (compile_ty (fbty b))) v) vals ctx ->
     map fkind vals = map (fun b => compile_chi (fbchi b)) ctx ->
     fbind (fvars ctx) vals e = Some e1 ->
     erel n G P e ce ->
@@ -142,7 +145,7 @@ Section FLa.
       exists ce. split; [reflexivity|]. split; [|reflexivity].
       eapply erel_weaken; [exact He | | apply Nat.le_refl]. intros x Hx. apply HP; [exact Hx | exact (fun H => H)].
     - destruct vals as [|v vr]; [discriminate|]. inversion Hv as [|? v' ? vr' Hv1 Hv2]; subst.
-      inversion Hd as [|? ? Hd1 Hd2]; subst. simpl in Hk. injection Hk as Hk1 Hk2.
+      inversion Hd as [|? ? ? ? Hd1 Hd2]; subst. simpl in Hk. injection Hk as Hk1 Hk2.
       simpl in Hb. destruct (fbind (fvars r) vr e) as [er|] eqn:Er; [|discriminate]. injection Hb as Hb. subst e1.
       destruct (IH (fun x => S' x /\ x <> new_id (fbvar cb)) P vr vr' e ce er Hv2 Hd2 Hk2 Er He) as [cer [Hc [Hr Hl]]].
       { intros x [Hx Hne] Hn. apply HP; [exact Hx|]. unfold cvars, compile_ctx. simpl. intros [E|Hin]; [congruence | exact (Hn Hin)]. }
@@ -156,80 +159,109 @@ Section FLa.
         rewrite Hx. apply Hl. intros Hin. apply Hn. right. exact Hin.
   Qed.
 
+  (* ---------- Core-only steps ---------- *)
+  Definition rreach (r r' : sres) : Prop :=
+    exists k, forall m out, crun_res cp (k + m) r out = crun_res cp m r' out.
+  Lemma rreach_refl : forall r, rreach r r.
+  Proof. intros r. exists 0%nat. reflexivity. Qed.
+  Lemma rreach_step : forall c r', rreach (cstep cp c) r' -> rreach (SNext c) r'.
+  Proof.
+    intros c r' [k H]. exists (S k). intros m out. simpl plus.
+    change (crun (S (k + m)) cp c out = crun_res cp m r' out). rewrite crun_S. apply H.
+  Qed.
+  Lemma rreach_trans : forall r1 r2 r3, rreach r1 r2 -> rreach r2 r3 -> rreach r1 r3.
+  Proof.
+    intros r1 r2 r3 [k1 H1] [k2 H2]. exists (k1 + k2)%nat. intros m out. rewrite <- Nat.add_assoc, H1. apply H2.
+  Qed.
+  Lemma rreach_one : forall c, rreach (SNext c) (cstep cp c).
+  Proof. intros c. apply rreach_step. apply rreach_refl. Qed.
+  Lemma sim_rreach : forall n cf r r', sim p cp n cf r' -> rreach r r' -> sim p cp n cf r.
+  Proof.
+    intros n cf r r' H [k Hk] out o Hr F. destruct (H out o Hr F) as [m Hm]. exists (k + m)%nat. rewrite Hk. exact Hm.
+  Qed.
+
   (* ---------- continuations ---------- *)
-  Definition cont_shape (cont : cterm) : Prop :=
+  (* the shapes of the continuations the translation hands down, by the KIND (c = codata?) of the values
+     they receive: covariables at both kinds; mu~ and case consumers at data kinds only; destructor
+     consumers at codata kinds only *)
+  Definition cont_shape (c : bool) (cont : cterm) : Prop :=
     match cont with
     | CXVar _ _ _ => True
-    | CXCase _ _ ty => is_codata cp ty = false
-    | CMu c v _ ty => c = CCns /\ is_codata cp ty = false /\ ~ In v (cnames (fvt cont))
+    | CXCase _ _ ty => c = false /\ is_codata cp ty = false
+    | CMu ch v _ ty => c = false /\ ch = CCns /\ is_codata cp ty = false /\ ~ In v (cnames (fvt cont))
+    | CXtor _ _ _ _ => c = true
     | _ => False
     end.
-  Lemma cont_shape_cns : forall cont, cont_shape cont -> cont_cns cont.
-  Proof. intros cont H. destruct cont; simpl in *; try exact I. tauto. Qed.
+  Lemma cont_shape_cns : forall c cont, cont_shape c cont -> cont_cns cont.
+  Proof. intros c cont H. destruct cont; simpl in *; try exact I. tauto. Qed.
 
-  Definition KS (n : nat) (k : fkont) (cont : cterm) (ce : cenv) : Prop :=
+  Definition KS (n : nat) (c : bool) (k : fkont) (cont : cterm) (ce : cenv) : Prop :=
     match cont with
     | CMu _ x s _ =>
         forall j, (j < n)%nat -> forall v pv, dval v -> vrel p cp j v pv ->
         forall env, agree (cnames (fvs s)) ((x, BP pv) :: ce) env ->
         sim p cp j (FRet k v) (SNext (Run s env))
+    | CXtor _ tag args _ =>
+        forall ce', agree (cnames (fvt cont)) ce ce' -> forall m,
+        exists kv, rreach (start_args cp args ce' (FinXtorK tag m)) (SNext (App m (BK kv))) /\ Kk p cp n c k kv
     | _ =>
         forall ce', agree (cnames (fvt cont)) ce ce' ->
-        exists kv, khead cont ce' = inl kv /\ Kb p cp n k kv
+        exists kv, khead cont ce' = inl kv /\ Kk p cp n c k kv
     end.
   Definition kinds_on (cont : cterm) (ce : cenv) (S : cident -> Prop) : Prop :=
     forall bb, In bb (fvt cont) -> S (cbvar bb) ->
       exists b', clookup ce (cbvar bb) = Some b' /\ ckind b' = cbchi bb.
-  Definition CK (n : nat) (k : fkont) (cont : cterm) (ce : cenv) (S : cident -> Prop) : Prop :=
-    kinds_on cont ce S /\ ((forall x, In x (cnames (fvt cont)) -> S x) -> KS n k cont ce).
+  Definition CK (n : nat) (c : bool) (k : fkont) (cont : cterm) (ce : cenv) (S : cident -> Prop) : Prop :=
+    kinds_on cont ce S /\ ((forall x, In x (cnames (fvt cont)) -> S x) -> KS n c k cont ce).
 
   (* names of the body of a mu~ other than its variable are names of the mu~ *)
-  Lemma mu_body_names : forall c x s ty y, c = CCns -> In y (cnames (fvs s)) -> y <> x ->
+  Lemma mu_body_names : forall c x s ty y, In y (cnames (fvs s)) -> y <> x ->
     In y (cnames (fvt (CMu c x s ty))).
   Proof.
-    intros c x s ty y Hc Hy Hne. apply in_cnames_inv in Hy. destruct Hy as [bb [Hb E]]. subst y.
+    intros c x s ty y Hy Hne. apply in_cnames_inv in Hy. destruct Hy as [bb [Hb E]]. subst y.
     apply in_cnames. apply fvt_mu_2; [exact Hb|]. intros Eb. subst bb. apply Hne. reflexivity.
   Qed.
 
-  Lemma KS_mono : forall n n' k cont ce, KS n k cont ce -> (n' <= n)%nat -> KS n' k cont ce.
+  Lemma KS_mono : forall n n' c k cont ce, KS n c k cont ce -> (n' <= n)%nat -> KS n' c k cont ce.
   Proof.
-    intros n n' k cont ce H Hle.
-    assert (Hgen : (forall ce', agree (cnames (fvt cont)) ce ce' -> exists kv, khead cont ce' = inl kv /\ Kb p cp n k kv) ->
-                   forall ce', agree (cnames (fvt cont)) ce ce' -> exists kv, khead cont ce' = inl kv /\ Kb p cp n' k kv).
-    { intros H0 ce' Ha. destruct (H0 ce' Ha) as [kv [E1 E2]]. exists kv. split; [exact E1 | eapply Kb_mono; eauto]. }
+    intros n n' c k cont ce H Hle.
+    assert (Hgen : (forall ce', agree (cnames (fvt cont)) ce ce' -> exists kv, khead cont ce' = inl kv /\ Kk p cp n c k kv) ->
+                   forall ce', agree (cnames (fvt cont)) ce ce' -> exists kv, khead cont ce' = inl kv /\ Kk p cp n' c k kv).
+    { intros H0 ce' Ha. destruct (H0 ce' Ha) as [kv [E1 E2]]. exists kv. split; [exact E1 | eapply Kk_mono; eauto]. }
     destruct cont; unfold KS in *; try (apply Hgen; exact H).
-    intros j Hj. apply H. lia.
+    - intros j Hj. apply H. lia.
+    - intros ce' Ha m. destruct (H ce' Ha m) as [kv [E1 E2]]. exists kv. split; [exact E1 | eapply Kk_mono; eauto].
   Qed.
-  Lemma KS_agree : forall n k cont ce ce', cont_shape cont ->
-    KS n k cont ce -> agree (cnames (fvt cont)) ce ce' -> KS n k cont ce'.
+  Lemma KS_agree : forall n c k cont ce ce', cont_shape c cont ->
+    KS n c k cont ce -> agree (cnames (fvt cont)) ce ce' -> KS n c k cont ce'.
   Proof.
-    intros n k cont ce ce' Hsh H Ha.
-    assert (Hgen : (forall ce', agree (cnames (fvt cont)) ce ce' -> exists kv, khead cont ce' = inl kv /\ Kb p cp n k kv) ->
-                   forall ce'', agree (cnames (fvt cont)) ce' ce'' -> exists kv, khead cont ce'' = inl kv /\ Kb p cp n k kv).
+    intros n c k cont ce ce' Hsh H Ha.
+    assert (Hgen : (forall ce', agree (cnames (fvt cont)) ce ce' -> exists kv, khead cont ce' = inl kv /\ Kk p cp n c k kv) ->
+                   forall ce'', agree (cnames (fvt cont)) ce' ce'' -> exists kv, khead cont ce'' = inl kv /\ Kk p cp n c k kv).
     { intros H0 ce'' Ha'. apply H0. intros x Hx. rewrite (Ha' x Hx). apply Ha. exact Hx. }
     destruct cont; unfold KS in *; try (apply Hgen; exact H).
-    destruct Hsh as [Hc [_ _]].
-    intros j Hj v0 pv Hd Hv env He. apply (H j Hj v0 pv Hd Hv). intros y Hy. rewrite (He y Hy).
-    rewrite !clookup_cons. destruct (cident_eqb v y) eqn:E; [reflexivity|]. apply Ha.
-    apply mu_body_names; [exact Hc | exact Hy|]. apply cid_eqb_neq in E. congruence.
+    - intros j Hj v0 pv Hd Hv env He. apply (H j Hj v0 pv Hd Hv). intros y Hy. rewrite (He y Hy).
+      rewrite !clookup_cons. destruct (cident_eqb v y) eqn:E; [reflexivity|]. apply Ha.
+      apply mu_body_names; [exact Hy|]. apply cid_eqb_neq in E. congruence.
+    - intros ce'' Ha' m. apply H. intros y Hy. rewrite (Ha' y Hy). apply Ha. exact Hy.
   Qed.
-  (* the consumer VALUE a related syntactic continuation denotes *)
-  Lemma KS_head : forall n k cont ce, cont_shape cont -> KS n k cont ce ->
+  (* the consumer VALUE a related syntactic continuation of a DATA kind denotes *)
+  Lemma KS_head : forall n k cont ce, cont_shape false cont -> KS n false k cont ce ->
     exists kv, khead cont ce = inl kv /\ Kb p cp n k kv.
   Proof.
-    intros n k cont ce Hsh H. destruct cont; simpl in Hsh; try contradiction.
+    intros n k cont ce Hsh H. destruct cont; simpl in Hsh; try contradiction; try discriminate Hsh.
     - apply (H ce). apply agree_refl.
     - simpl in H. exists (KMuT v s ce). split; [reflexivity|]. apply Kb_intro.
       intros j Hj v0 pv Hd Hv. simpl. apply (H j Hj v0 pv Hd Hv). apply agree_refl.
     - apply (H ce). apply agree_refl.
   Qed.
 
-  Lemma CK_transfer : forall n n' k cont ce ce' (S S' : cident -> Prop), cont_shape cont ->
-    CK n k cont ce S ->
+  Lemma CK_transfer : forall n n' c k cont ce ce' (S S' : cident -> Prop), cont_shape c cont ->
+    CK n c k cont ce S ->
     (forall x, In x (cnames (fvt cont)) -> S' x -> S x /\ clookup ce' x = clookup ce x) ->
-    (n' <= n)%nat -> CK n' k cont ce' S'.
+    (n' <= n)%nat -> CK n' c k cont ce' S'.
   Proof.
-    intros n n' k cont ce ce' S S' Hsh [Hk HK] HS Hle. split.
+    intros n n' c k cont ce ce' S S' Hsh [Hk HK] HS Hle. split.
     - intros bb Hb Hs. destruct (HS _ (in_cnames _ _ Hb) Hs) as [Hs1 Ha].
       destruct (Hk bb Hb Hs1) as [b' [E1 E2]]. exists b'. rewrite Ha. auto.
     - intros Hall. eapply KS_mono; [|exact Hle]. eapply KS_agree; [exact Hsh | apply HK |].
@@ -238,7 +270,7 @@ Section FLa.
   Qed.
 
   (* ---------- machine steps that involve the continuation ---------- *)
-  Lemma cstep_cut_var : forall cont ce c v ty ty', cont_shape cont ->
+  Lemma cstep_cut_var : forall cont ce c v ty ty', cont_shape false cont ->
     cstep cp (Run (CCut (CXVar c v ty) ty' cont) ce) =
     match khead cont ce with
     | inl kv => match clookup ce v with
@@ -248,15 +280,15 @@ Section FLa.
                 end
     | inr why => stuck why
     end.
-  Proof. intros cont ce c v ty ty' H. destruct cont; simpl in H; try contradiction; reflexivity. Qed.
-  Lemma cstep_cut_lit : forall cont ce z ty', cont_shape cont ->
+  Proof. intros cont ce c v ty ty' H. destruct cont; simpl in H; try contradiction; try discriminate H; reflexivity. Qed.
+  Lemma cstep_cut_lit : forall cont ce z ty', cont_shape false cont ->
     cstep cp (Run (CCut (CLit z) ty' cont) ce) =
     match khead cont ce with inl kv => interact_val (PInt z) kv | inr why => stuck why end.
-  Proof. intros cont ce z ty' H. destruct cont; simpl in H; try contradiction; reflexivity. Qed.
-  Lemma cstep_cut_mu : forall cont ce c a s ty ty', cont_shape cont ->
+  Proof. intros cont ce z ty' H. destruct cont; simpl in H; try contradiction; try discriminate H; reflexivity. Qed.
+  Lemma cstep_cut_mu : forall cont ce c a s ty ty', cont_shape false cont ->
     cstep cp (Run (CCut (CMu c a s ty) ty' cont) ce) =
     match khead cont ce with inl kv => interact_mu (is_codata cp ty') a s ce kv | inr why => stuck why end.
-  Proof. intros cont ce c a s ty ty' H. destruct cont; simpl in H; try contradiction; reflexivity. Qed.
+  Proof. intros cont ce c a s ty ty' H. destruct cont; simpl in H; try contradiction; try discriminate H; reflexivity. Qed.
   Lemma cstep_cut_op : forall cont ce a o b ty',
     cstep cp (Run (CCut (COp a o b) ty' cont) ce) =
     match cont with
@@ -264,17 +296,45 @@ Section FLa.
     | _ => SNext (Arg (CProducer a) ce (MOpL o b ce (MCutK cont ce)))
     end.
   Proof. intros. destruct cont; reflexivity. Qed.
-  Lemma cstep_arg_consumer : forall cont ce m kv, cont_shape cont -> khead cont ce = inl kv ->
-    cstep cp (Arg (CConsumer cont) ce m) = SNext (App m (BK kv)).
+
+  (* a continuation of either kind, evaluated as a consumer argument / met by a head producer *)
+  Lemma KS_arg : forall n c k cont ce m, cont_shape c cont -> KS n c k cont ce ->
+    exists kv, rreach (cstep cp (Arg (CConsumer cont) ce m)) (SNext (App m (BK kv))) /\ Kk p cp n c k kv.
   Proof.
-    intros cont ce m kv H Hk. destruct cont; simpl in H; try contradiction; simpl in *.
-    - destruct (clookup ce v) as [[pv|kv']|]; try discriminate. injection Hk as Hk. subst. reflexivity.
-    - destruct H as [_ [Hc _]]. rewrite Hc. injection Hk as Hk. subst. reflexivity.
-    - injection Hk as Hk. subst. reflexivity.
+    intros n c k cont ce m Hsh H. destruct cont; simpl in Hsh; try contradiction.
+    - destruct (H ce (agree_refl _ _)) as [kv [Hh Hk]]. exists kv. split; [|exact Hk].
+      simpl in *. destruct (clookup ce v) as [[pv|kv']|]; try discriminate. injection Hh as Hh. subst. apply rreach_refl.
+    - destruct Hsh as [Ec [_ [Hc _]]]. subst c. exists (KMuT v s ce). split.
+      + simpl. rewrite Hc. apply rreach_refl.
+      + apply Kk_intro. intros j Hj v0 pv Hd Hv. simpl. apply (H j Hj v0 pv Hd Hv). apply agree_refl.
+    - subst c. destruct (H ce (agree_refl _ _) m) as [kv [Hr Hk]]. exists kv. split; [exact Hr | exact Hk].
+    - destruct (H ce (agree_refl _ _)) as [kv [Hh Hk]]. exists kv. split; [|exact Hk].
+      simpl in *. injection Hh as Hh. subst. apply rreach_refl.
+  Qed.
+  Definition head_producer (pr : cterm) : Prop :=
+    match pr with CXVar _ _ _ | CLit _ | CMu _ _ _ _ | CXCase _ _ _ => True | _ => False end.
+  Lemma KS_cut : forall n c k cont ce pr ty, cont_shape c cont -> KS n c k cont ce -> head_producer pr ->
+    exists kv, rreach (cstep cp (Run (CCut pr ty cont) ce)) (cut_with_k (is_codata cp ty) pr ce kv) /\ Kk p cp n c k kv.
+  Proof.
+    intros n c k cont ce pr ty Hsh H Hp.
+    destruct cont; simpl in Hsh; try contradiction.
+    - destruct (H ce (agree_refl _ _)) as [kv [Hh Hk]]. exists kv. split; [|exact Hk].
+      destruct pr; simpl in Hp; try contradiction; simpl; simpl in Hh; rewrite Hh; apply rreach_refl.
+    - destruct Hsh as [Ec _]. subst c. exists (KMuT v s ce). split.
+      + destruct pr; simpl in Hp; try contradiction; apply rreach_refl.
+      + apply Kk_intro. intros j Hj v0 pv Hd Hv. simpl. apply (H j Hj v0 pv Hd Hv). apply agree_refl.
+    - subst c. destruct (H ce (agree_refl _ _) (MCutP (is_codata cp ty) pr ce)) as [kv [Hr Hk]]. exists kv. split; [|exact Hk].
+      assert (E : cstep cp (Run (CCut pr ty (CXtor c0 x args t)) ce) =
+                  start_args cp args ce (FinXtorK x (MCutP (is_codata cp ty) pr ce))).
+      { destruct pr; simpl in Hp; try contradiction; reflexivity. }
+      rewrite E. eapply rreach_trans; [exact Hr|]. apply rreach_one.
+    - destruct (H ce (agree_refl _ _)) as [kv [Hh Hk]]. exists kv. split; [|exact Hk].
+      simpl in Hh. injection Hh as Hh. subst kv.
+      destruct pr; simpl in Hp; try contradiction; apply rreach_refl.
   Qed.
 
-  (* the machine continuation "cut the value against cont" *)
-  Lemma Kb_mcutk : forall n k cont ce, cont_shape cont -> KS n k cont ce -> Kb p cp n k (KRet (MCutK cont ce)).
+  (* the machine continuation "cut the value against cont" (data kinds) *)
+  Lemma Kb_mcutk : forall n k cont ce, cont_shape false cont -> KS n false k cont ce -> Kb p cp n k (KRet (MCutK cont ce)).
   Proof.
     intros n k cont ce Hsh H. destruct (KS_head _ _ _ _ Hsh H) as [kv [Hh Hk]].
     apply Kb_intro. intros j Hj v pv Hd Hv. rewrite (dval_interact_ret p cp j v pv _ Hd Hv).
